@@ -241,9 +241,9 @@ Proof.
   replace (("FONT_" ++ dec k =? "PALETTE")%string) with false by reflexivity.
   replace (("FONT_" ++ dec k =? "SAUCE")%string) with false by reflexivity.
   rewrite strip_prefix_app, (parse_dec k Hk).
-  rewrite take4_le. cbn [bind fst snd].
+  rewrite take_e4_le. cbn [bind fst snd].
   rewrite unle_le by (change (256 ^ N.of_nat 4) with 4294967296; exact Hn).
-  rewrite take_app. cbn [bind fst snd]. rewrite (lossy_valid _ Hu), (font_codec _ _ Hb). reflexivity.
+  rewrite take_e_app. cbn [bind fst snd]. rewrite (lossy_valid _ Hu), (font_codec _ _ Hb). reflexivity.
 Qed.
 
 Lemma step_layer D i bs L' : decode bs = Ok L' ->
